@@ -65,7 +65,18 @@ def helper_case(rng, fam, g, doc: Node, docs, helper, fixed=None):
                 out, err = ops.run(tr, lambda t: t.join(p))
                 performed = out == "ok"
         elif helper == "lift_target":
-            rg = doc.resolve(a).block_range(doc.resolve(c))
+            ra = doc.resolve(a)
+            level = fixed.get("level")
+            if level is None and "a" not in fixed and ra.depth >= 2 and rng.random() < 0.5:
+                level = rng.randint(1, ra.depth - 1)
+            if level is not None and level < ra.depth:
+                # the block range at a chosen ancestor level (list items inside a list, not only the innermost
+                # range around the textblocks)
+                args["level"] = level
+                want = ra.node(level)
+                rg = ra.block_range(doc.resolve(c), lambda nd: nd is want)
+            else:
+                rg = ra.block_range(doc.resolve(c))
             if rg is not None:
                 tgt = structure.lift_target(rg)
                 approved = tgt is not None
@@ -153,6 +164,18 @@ def approved_candidates(rng, doc, cap):
         if rg is not None and safe(lambda: structure.lift_target(rg)) is not None:
             lifts.append((x, y))
     out += [("lift_target", {"a": x, "c": y}) for x, y in rng.sample(lifts, min(len(lifts), 2 * cap))]
+    # ... and approved lifts of ranges at a chosen ancestor level (items of a list, a quote inside an item)
+    lv = []
+    for x, y in pairs:
+        rx = safe(lambda: doc.resolve(x))
+        if rx is None or rx.depth < 2:
+            continue
+        for level in range(1, rx.depth):
+            want = rx.node(level)
+            rg = safe(lambda: rx.block_range(doc.resolve(y), lambda nd: nd is want))
+            if rg is not None and safe(lambda: structure.lift_target(rg)) is not None:
+                lv.append((x, y, level))
+    out += [("lift_target", {"a": x, "c": y, "level": l}) for x, y, l in rng.sample(lv, min(len(lv), 2 * cap))]
     return out
 
 
@@ -179,14 +202,54 @@ def rebuild(desc):
     g = gen.DocGen(sc, rng)
     doc = Node.from_json(sc, desc["doc"])
     fixed = {"a": args["pos"], "c": args.get("to", args["pos"])}
-    for k in ("depth", "dir", "slice"):
+    for k in ("depth", "dir", "slice", "level"):
         if k in args:
             fixed[k] = args[k]
     return helper_case(rng, fam, g, doc, [doc], helper, fixed)
 
 
+def _lift_split_parts_invalid(doc, rg, target):
+    """Transform.lift splits every ancestor between the range and the target; the part of each ancestor that
+    comes before / after the lifted range is re-wrapped in a copy of that ancestor.  True if one of those
+    re-wrapped parts is not valid content for its ancestor type (what lift_target / can_cut do not look at:
+    can_cut only asks about the ancestor's own children, not about the re-wrapped deeper remainder)."""
+    f, t_, depth = rg.from_, rg.to, rg.depth
+    pre = post = None          # the wrapped part of the level below
+    for d in range(depth, target, -1):
+        node = f.node(d)
+        kids = list(node.content.content)
+        before = kids[: (rg.start_index if d == depth else f.index(d))]
+        after = kids[(rg.end_index if d == depth else t_.index_after(d)):]
+        if pre is not None:
+            before = before + [pre]
+        if post is not None:
+            after = [post] + after
+        for part in (before, after):
+            if part and not node.type.valid_content(Fragment.from_(part)):
+                return True
+        pre = node.copy(Fragment.from_(before)) if before else None
+        post = node.copy(Fragment.from_(after)) if after else None
+    return False
+
+
 def classify(case):
     d = case.desc
+    if d.get("helper") == "lift_target" and d.get("approved") and not d.get("performed") \
+            and "Invalid content for node" in (d.get("error") or "") and "result" in d.get("args", {}):
+        # known upstream semantics: lift_target / can_cut approve a multi-level lift whose split-off
+        # remainder cannot stand alone in a copy of the ancestor (a list item that would start with a list)
+        sc = gen.family(d["family"])
+        doc = Node.from_json(sc, d["doc"])
+        a = d["args"]
+        ra = doc.resolve(a["pos"])
+        if a.get("level") is not None and a["level"] < ra.depth:
+            want = ra.node(a["level"])
+            rg = ra.block_range(doc.resolve(a["to"]), lambda nd: nd is want)
+        else:
+            rg = ra.block_range(doc.resolve(a["to"]))
+        if rg is not None and a["result"] < rg.depth - 1 and _lift_split_parts_invalid(doc, rg, a["result"]):
+            return "C12-lift-split-remainder-invalid"
+        return None
     if d.get("helper") == "find_wrapping" and d.get("approved") and d.get("performed"):
         # known upstream semantics: marks on wrapped block nodes are not considered. Specific match: the final
         # document becomes valid once the marks of the wrapped nodes' are ignored by their new parent, i.e. the
